@@ -1219,6 +1219,30 @@ theorem generate_unconfigured_refused (set : List String) (cts : List TargetDef)
     · exact hgs (hall d hmem g hg)
   simp [generateOutcome, hd, hnot]
 
+/-- an IDL without any type definition (empty file, empty namespaces, imports of such files): `generate` still looks the target up and
+requires its configuration — 120 for an unknown name, 141 for a target that is not (fully) configured, otherwise it runs (purging with
+`--clean`, writing the type-independent files); it never depends on a declaration, so never ends in the internal error of the hole -/
+theorem generate_typeless (cts : List TargetDef) (t : String) :
+    generateOutcome cts [] t =
+      (match targetTable.find? (fun d => d.key == t) with
+       | none => .app 120
+       | some d => if !cts.contains d then .app 141 else .ok ()) := by
+  simp only [generateOutcome]
+  cases targetTable.find? (fun d => d.key == t) with
+  | none => rfl
+  | some d =>
+    have h : needsCpp cts [] d = false := by
+      simp [needsCpp]
+    simp [h]
+
+theorem generate_typeless_unconfigured_refused (set : List String) (cts : List TargetDef) (d : TargetDef)
+    (hp : parseReady (some set) = .ok cts) (hd : targetTable.find? (fun x => x.key == d.key) = some d)
+    (hmiss : d.key ∉ set ∨ ∃ g ∈ d.generators, g ∉ set) : generateOutcome cts [] d.key = .app 141 :=
+  generate_unconfigured_refused set cts [] d hp hd hmiss
+
+example : generateOutcome (configuredTargets ["cpp", "java", "jni", "yaml"]) [] "objc" = .app 141 := by decide +kernel
+example : generateOutcome (configuredTargets ["cpp", "java", "jni", "yaml"]) [] "java" = .ok () := by decide +kernel
+
 /-- outside that hole `generate` never ends in an internal error -/
 theorem generate_fails_cleanly_partial (cts : List TargetDef) (kinds : List DeclKind) (t : String)
     (hdom : readyDom cts kinds t = true) : (generateOutcome cts kinds t).isCrash = false := by
